@@ -26,6 +26,7 @@ func init() {
 			"Round 6: F11 a decode of _stage_defs into the pointer Fork.stageDefs is followed by a nil test; F12 preloaded chunks can reach verifyDef before they are stepped; F13 (= R7b) orphaned local nodes are reset at re-attach. " +
 			"F14 a non-zero time is stored into Metadata.notRunningSince only under IsZero() of that field (the first observation stands). " +
 			"F15 every non-error return of Node.refreshState has passed the endRefresh pass; F16 in doJoin the chunk's outs are parsed before they are copied to the join. " +
+			"F17 in martian/adapter and cmd/mrjob no defer that can reach os.Exit is registered after another defer. " +
 			"NOT decided: error text naming the stage, retry classification, the Python adapter.",
 		Assumptions: commonAssumptions,
 	}
@@ -48,6 +49,7 @@ func runC06(c *an.Ctx) {
 	ruleF14(c)
 	ruleF15(c)
 	ruleF16(c)
+	ruleF17(c)
 }
 
 func existsCallOf(p *an.Prog, v ssa.Value, file string) bool {
